@@ -130,7 +130,8 @@ class ProgressIndicator(object):
 
         try:
             yield self
-        except (Exception, KeyboardInterrupt):
+        except BaseException:
+            # Whatever ends the body (SystemExit included), the spinner must be stopped
             self._io.write_line("")
 
             self._auto_running.set()
